@@ -73,6 +73,10 @@ def run_case(case: dict) -> Result:
     try:
         model = parser().parse(text, cls, auto_claim_comments=claim)
     except lark.exceptions.LarkError:
+        if case.get('nearmiss'):
+            # a deliberately damaged text: refusing it is the expected outcome and counts as an evaluated case, not as a discard
+            res.classes = ['nearmiss:rejected']
+            return res
         return Result(discard=True)
     except (ValueError, OverflowError, RecursionError):
         # a lexeme without a valid meaning (date out of range, year too large for an int) or nesting beyond the interpreter's stack: a rejection
@@ -82,6 +86,8 @@ def run_case(case: dict) -> Result:
     except Exception as e:  # noqa: BLE001
         return res.bad(f'parse-crash:{type(e).__name__}', f'parse({text!r}, {cls.__name__}) raised {e!r} on a text built from the grammar')
     classes = features(chunks, text)
+    if case.get('nearmiss'):
+        classes.add('nearmiss:accepted')
     classes.add('claim:on' if claim else 'claim:off')
     classes.add('target:file' if target == 'file' else 'target:other')
     if target in L.INLINE_TARGETS and '\n' in text:
@@ -178,12 +184,46 @@ def _build_target(tier: str):
     return build
 
 
+def _build_nearmiss(tier: str):
+    """Texts one structural step away from generated ones: an indent dropped, doubled or moved, a line break dropped, two pieces swapped.
+    Most are refused (which is fine); whatever parse() accepts must be reproduced like any other accepted text."""
+    cfg = _cfg(tier)
+    targets = ['posting', 'meta_item', 'transaction', 'file', 'open', 'balance', 'custom']
+
+    def build(rnd: Any) -> dict:
+        t = targets[rnd.randint(0, len(targets) - 1)]
+        chunks = L.build_target(rnd, t, cfg) if t != 'file' else L.build_doc(rnd, cfg)
+        flat = [list(p) for c in chunks for p in c]
+        idx_indent = [i for i, p in enumerate(flat) if p[0] == 'INDENT']
+        idx_nl = [i for i, p in enumerate(flat) if p[0] == '_NEWLINE']
+        k = rnd.randint(0, 5)
+        if k == 0 and idx_indent:
+            del flat[idx_indent[0]]                       # the first line loses its indent
+        elif k == 1 and idx_indent:
+            del flat[idx_indent[rnd.randint(0, len(idx_indent) - 1)]]
+        elif k == 2 and idx_indent:
+            i = idx_indent[rnd.randint(0, len(idx_indent) - 1)]
+            flat.insert(i, ['INDENT', flat[i][1]])
+        elif k == 3 and idx_nl:
+            del flat[idx_nl[rnd.randint(0, len(idx_nl) - 1)]]
+        elif k == 4 and len(flat) >= 2:
+            i = rnd.randint(0, len(flat) - 2)
+            flat[i], flat[i + 1] = flat[i + 1], flat[i]
+        elif idx_nl:
+            i = idx_nl[rnd.randint(0, len(idx_nl) - 1)]
+            flat.insert(i + 1, ['INDENT', '  '])
+        return {'target': t, 'claim': rnd.randint(0, 99) < 50, 'dirs': [[['X', ''.join(p[1] for p in flat)]]], 'raw': True, 'nearmiss': True}
+    return build
+
+
 def jobs(tier: str) -> list[Job]:
     if tier == 'quick':
         return [Job('file-docs', 'hyp', lambda: _build_file(tier), 3000),
-                Job('single-targets', 'hyp', lambda: _build_target(tier), 2500)]
+                Job('single-targets', 'hyp', lambda: _build_target(tier), 2500),
+                Job('near-miss-texts', 'hyp', lambda: _build_nearmiss(tier), 3000)]
     return [Job('file-docs', 'hyp', lambda: _build_file(tier), 200000),
             Job('single-targets', 'hyp', lambda: _build_target(tier), 100000),
+            Job('near-miss-texts', 'hyp', lambda: _build_nearmiss(tier), 100000),
             Job('fuzz-bytes', 'fuzz', _fuzz_spec)]
 
 
